@@ -291,9 +291,62 @@ def run_same_instant(acc, pendulum, inst, thorough):
                         acc.c["nontrivial"] += 1
 
 
+FLOAT_STEPS = (("hours", 2.5), ("hours", 1.5), ("hours", 0.25), ("minutes", 37.5), ("minutes", 0.5), ("seconds", 0.25), ("seconds", 1.5), ("hours", 3.0))
+FLOAT_SPANS_S = (30 * 3600, 3 * 3600 + 45 * 60, 75 * 60, 90)
+
+
+def check_float_steps(acc, pendulum, unit, n, span_s, direction):
+    """range(unit, <fractional dyadic step>) between UTC values: start, start + n, start + 2n ... to the microsecond."""
+    import datetime as dt_
+    from fractions import Fraction as Fr
+    case = {"kind": "fsteps", "unit": unit, "n": n, "span": span_s, "dir": direction}
+    step_us = Fr(n) * {"hours": 3600, "minutes": 60, "seconds": 1}[unit] * US
+    assert step_us.denominator == 1
+    step_us = int(step_us)
+    if span_s * US // step_us > 2000:
+        return
+    a = pendulum.DateTime(2021, 5, 10, 22, 45, 50, 250000, tzinfo=pendulum.UTC)
+    na = dt_.datetime(2021, 5, 10, 22, 45, 50, 250000)
+    b = a.add(seconds=direction * span_s)
+    want = []
+    k = 0
+    while k * step_us <= span_s * US:
+        w = na + dt_.timedelta(microseconds=direction * k * step_us)
+        want.append((w.year, w.month, w.day, w.hour, w.minute, w.second, w.microsecond))
+        k += 1
+    got = []
+    worker.horizon(5.0)
+    try:
+        for x in pendulum.Interval(a, b).range(unit, n):
+            got.append(obs.fields(x))
+            if len(got) > len(want) + 3:
+                break
+        status = "ok"
+    except worker.Hang:
+        status = "HANG"
+    except Exception as e:  # noqa: BLE001
+        status = type(e).__name__
+    finally:
+        worker.horizon(worker.SHARD_WATCHDOG)
+    acc.c["evaluations"] += 1
+    acc.c["transitions"] += len(got)
+    if status != "ok" or got != want:
+        i = next((j for j, (g, w) in enumerate(zip(got, want)) if g != w), min(len(got), len(want)))
+        acc.mismatch("range", f"float-step/{unit}", case, [status, len(got), i, got[i] if i < len(got) else None],
+                     ["ok", len(want), i, want[i] if i < len(want) else None])
+
+
 def run_shard(shard):
     import pendulum
     acc = core.Acc(ID)
+    if shard.get("kind") == "float-steps":
+        for unit, n in FLOAT_STEPS:
+            for span_s in FLOAT_SPANS_S:
+                for direction in (1, -1):
+                    acc.c["states"] += 1
+                    check_float_steps(acc, pendulum, unit, n, span_s, direction)
+        acc.sample({"float_steps": [list(x) for x in FLOAT_STEPS[:4]]})
+        return acc.result()
     if shard.get("kind") == "same-instant":
         for inst in shard["instants"]:
             acc.c["states"] += len(SAME_INSTANT_ZONES)
@@ -346,7 +399,9 @@ def run_shard(shard):
 
 def replay_case(case, acc):
     import pendulum
-    if case["kind"] == "limits":
+    if case["kind"] == "fsteps":
+        check_float_steps(acc, pendulum, case["unit"], case["n"], case["span"], case["dir"])
+    elif case["kind"] == "limits":
         check_limits(acc, pendulum, case["z"])
     elif case["kind"] == "range":
         check_range(acc, pendulum, case["z"], tuple(case["f"]), case["span"], case["sign"], case["mode"],
@@ -371,6 +426,7 @@ def plan(tier, seed):
           ((2023, 1, 30), (2024, 2, 28), (2023, 12, 31), (2023 + seed % 3, 3, 30))]
     shards += [{"kind": "same-instant", "instants": [i], "thorough": thorough} for i in si]
     shards.append({"kind": "limits"})
+    shards.append({"kind": "float-steps"})
     shards += [{"kind": "allzones", "zones": ch} for ch in seeds.chunks(list(seeds.all_zones()), 8)]
     return [({"ext": 1, "tz": "sys"}, shards), ({"ext": 0, "tz": "sys"}, py if thorough else py[::2] + py[1::4])]
 
